@@ -102,6 +102,21 @@ def gen_plan(rng, content, kind):
         plan = list(dict.fromkeys(plan))
     elif kind == "beyond":
         plan.append((n, rng.randint(1, 2)))
+    elif kind == "gapfull" and len(plan) >= 3:
+        # the byte total of the layer and the last byte present, but a middle chunk is replaced by one of the same length
+        # inside a range that is covered anyway (a hole remains)
+        j = rng.randrange(1, len(plan) - 1)
+        s0, g = plan[j]
+        last = max(plan, key=lambda q: q[0])
+        if plan[j] != last:
+            cands = [x for x in range(0, n - g + 1) if (x + g <= s0 or x >= s0 + g) and (x, g) not in plan]
+            if cands:
+                plan[j] = (rng.choice(cands), g)
+    elif kind == "wrongchunk":
+        # every chunk is consistent with the digest the registry lists for it, but one is not the layer's bytes
+        i = rng.randrange(len(plan))
+        s0, g = plan[i]
+        plan[i] = (s0, g, bytes((b ^ 0x20) for b in content[s0:s0 + g]))
     elif kind == "shifted" and len(plan) >= 2:
         # same number of bytes as the layer, but one chunk covers the wrong range (the byte counter is satisfied, the layer is not covered)
         i = rng.randrange(len(plan))
@@ -137,7 +152,7 @@ def gen_pull(rng, klass=None):
     plans = {}
     for c in layers + ([config] if config else []):
         if len(c) >= thr:
-            pk = "partition" if rng.random() < 0.85 or gated else rng.choice(["drop", "overlap", "beyond", "shifted", "shifted"])
+            pk = "partition" if rng.random() < 0.85 or gated else rng.choice(["drop", "overlap", "beyond", "shifted", "shifted", "gapfull", "gapfull", "wrongchunk", "wrongchunk"])
             plankind[c] = pk
             plans[c] = gen_plan(rng, c, pk)
     attempts = []
@@ -159,9 +174,14 @@ def gen_pull(rng, klass=None):
                 if rng.random() < pfault * 0.4:
                     plan = plan[: rng.randrange(0, len(plan) + 1)]
                     e["tail"] = rng.choice(["baddigest", "norange", "badrange", "revrange", "boom", None])
-                for (s, ln) in plan:
+                for q in plan:
+                    s, ln = q[0], q[1]
+                    want = q[2] if len(q) > 2 else c[s:s + ln]
                     fault = rng.choice(FAULTS) if rng.random() < pfault else "ok"
-                    e["plan"].append({"start": s, "len": ln, "resp": gen_response(rng, c[s:s + ln], fault), "fault": fault})
+                    it = {"start": s, "len": ln, "resp": gen_response(rng, want, fault), "fault": fault}
+                    if len(q) > 2:
+                        it["bytes"] = want
+                    e["plan"].append(it)
             else:
                 fault = rng.choice(FAULTS) if rng.random() < pfault else "ok"
                 e["single"] = {"resp": gen_response(rng, c, fault), "fault": fault}
@@ -189,7 +209,7 @@ def gen_pull(rng, klass=None):
                 it = rng.choice(its)
                 dgs = [d for d, e in a["env"].items() if it in (e["plan"] if e["single"] is None else [e["single"]])][0]
                 cont = [c for c in layers + ([config] if config else []) if sha(c) == dgs][0]
-                want = cont if "start" not in it else cont[it["start"]:it["start"] + it["len"]]
+                want = cont if "start" not in it else item_bytes(cont, it)
                 if want:
                     it["resp"] = gen_response(rng, want, "stall")
                     it["fault"] = "stall"
@@ -240,10 +260,15 @@ def all_layers(a):
     return a["layers"] + ([a["config"]] if a["config"] is not None else [])
 
 
+def item_bytes(cont, it):
+    """the bytes a listed chunk claims to be (its digest in the chunk list is their hash)"""
+    return it["bytes"] if it.get("bytes") is not None else cont[it["start"]:it["start"] + it["len"]]
+
+
 def cs_body(c, e):
     out = b""
     for it in e["plan"]:
-        out += b"sha256:%s %d-%d\n" % (sha(c[it["start"]:it["start"] + it["len"]]).encode(), it["start"], it["start"] + it["len"] - 1)
+        out += b"sha256:%s %d-%d\n" % (sha(item_bytes(c, it)).encode(), it["start"], it["start"] + it["len"] - 1)
     t = e["tail"]
     if t == "baddigest":
         out += b"sha256:zz 0-1\n"
@@ -315,7 +340,7 @@ def preimages(c, o):
             pre[sha(cont)] = cont
             e = a["env"][sha(cont)]
             for it in e["plan"]:
-                ch = cont[it["start"]:it["start"] + it["len"]]
+                ch = item_bytes(cont, it)
                 pre[sha(ch)] = ch
         pre[sha(manifest_body(a))] = manifest_body(a)
     for p in c["pre"]:
@@ -399,7 +424,7 @@ def cq_attempt(c, a):
         else:
             items = []
             for k, it in enumerate(e["plan"]):
-                ch = cont[it["start"]:it["start"] + it["len"]]
+                ch = item_bytes(cont, it)
                 items.append("((%s, %s, %s), %s)" % (cq_bytes(ch), cq_nat(it["start"]), cq_nat(it["len"]), cq_resp(it["resp"])))
                 idx.setdefault((sha(cont), it["start"], it["len"]), (li, k))
             envs.append("(mkLE (CStatus PPerm) %s %s %s)" % (cq_bool(e["cs_status"] != 200 or bool(e.get("cancel"))), cq_list(items, "(citem Dg * cresp)%type"), cq_bool(e["tail"] is not None)))
